@@ -184,7 +184,15 @@ class Gen:
                         a3 = rng.choice([x for x in acts if x != a])
                         routes.append({"action": a3, "skip": False,
                                        "after": {"name": self.hname("after_" + a3.lower()), "sig": KW, "async": False, "out": ("ret",)}})
-                    cases.append(("unhandled", version, routes, self.frame("id-%d" % rng.randrange(99), a, rng.choice(payloads))))
+                    info = {}
+                    if routes and routes[0].get("on") and rng.random() < 0.5:
+                        # another class of the process gives the SAME handler name to the unhandled action itself
+                        import copy as _copy
+                        twin = _copy.deepcopy(routes[0])
+                        twin["action"] = a if isinstance(a, str) and a else "Other"
+                        twin["defined_after"] = rng.random() < 0.5
+                        info = {"prelude": [twin]}
+                    cases.append(("unhandled", version, routes, self.frame("id-%d" % rng.randrange(99), a, rng.choice(payloads)), info))
             # strings derived from the action names (suffixes older releases used for class names, other spellings):
             # none of them is an action, whatever registered handler their stem may name
             derive = [lambda a: a + "Payload", lambda a: a + "Request", lambda a: a + "Response", lambda a: a + "Req",
@@ -246,8 +254,15 @@ class Gen:
                 cases.append(("id-unhandled", version, [], json.dumps([2, i, "Nope", {}])))
             for p in [[], "s", 5, None, True, {"extra": 1}, [{}], {"a": {"b": [None, {"c": None}]}}]:
                 cases.append(("payload", version, [hb], json.dumps([2, "p", "Heartbeat", p])))
-                sk = self.route("Heartbeat", ("ret", {"current_time": "t"}), skip=True, after=("ret",))
+                sk = self.route("Heartbeat", ("ret", {"current_time": "t"}), skip=True, after=("ret",),
+                                sig=rng.choice([KW, KW_UID, KW_UID_KWONLY]), after_sig=rng.choice([KW, KW_UID]))
                 cases.append(("payload-skip", version, [sk], json.dumps([2, "p", "Heartbeat", p])))
+            # an action of the application's own for which no schema is shipped: a validating route answers
+            # NotImplemented (every time), a route that skips validation hands the payload to its handler
+            for va in ("VendorDiagnostics", "Vendor_Custom"):
+                for p in [{}, {"vendorKey": [1, {"nestedKey": None}]}, "text"]:
+                    cases.append(("vendor", version, [self.route(va, ("ret", {}), after=("ret",))], json.dumps([2, "v", va, p])))
+                    cases.append(("skip-vendor", version, [dict(self.route(va, ("ret", {}), skip=True), vendor=True)], json.dumps([2, "v", va, p])))
             # handler that cannot take the payload (explicit parameters) -> TypeError -> InternalError
             es = {"required": ["nope"], "optional": [], "varkw": False, "uid": False}
             cases.append(("bind-fail", version, [self.route("Heartbeat", ("ret", {"current_time": "t"}), sig=es)],
@@ -303,6 +318,9 @@ class Gen:
                             mine = self.route(action, ("ret", snake(b[1])), after=("ret",))
                             raw = self.frame("k-%d" % len(cases), action, valid_reqs[0][1])
                         info = {"tags": b[2]}
+                        if side == "res" and len(cases) % 5 == 3:
+                            fr = json.loads(raw)
+                            cases.append(("malformed-5th", version, [mine], json.dumps(fr + [True]), {"tags": b[2]}))
                         if side == "req" and len(cases) % 4 == 2:
                             # only an after-hook is registered for the action: the CALL is still validated first
                             mine = {k: v for k, v in mine.items() if k != "on"}
